@@ -27,6 +27,7 @@ type vfC14Kind struct {
 	Mint   func(m *vfMintCtx)
 	JWKS   func(p *vfIdP) []byte
 	UInfo  func(c map[string]interface{})
+	GR     func(c map[string]interface{}) // Entra ID personality: alters a page of the Graph group listing
 	AZ     func(c map[string]interface{}) // Azure personality: alters the Graph-style profile document
 	AT     func(c map[string]interface{}) // Keycloak personality: alters the claims of the (JWT) access token
 	Need   string                         // must-reject applies only when the ID token lacks this claim (the profile endpoint is its only source)
@@ -42,6 +43,26 @@ func vfC14Kinds() []vfC14Kind {
 	for _, k := range []string{"500", "400", "401", "reset-before", "reset-after-headers", "hang", "empty-body", "truncated-json", "non-json"} {
 		ks = append(ks, vfC14Kind{Name: k, Reject: all, Fault: vfIdpFault{Kind: k}})
 	}
+	gr := func(name string, f func(c map[string]interface{})) {
+		ks = append(ks, vfC14Kind{Name: "graph:" + name, On: "graph", GR: f})
+	}
+	gr("value-string", func(c map[string]interface{}) { c["value"] = "g-1-2" })
+	gr("value-null", func(c map[string]interface{}) { c["value"] = nil })
+	gr("value-object", func(c map[string]interface{}) { c["value"] = map[string]interface{}{"id": "g-1-2"} })
+	gr("ids-numbers", func(c map[string]interface{}) { c["value"] = []interface{}{map[string]interface{}{"id": 7}, 9, nil, "x", []interface{}{}} })
+	gr("entries-without-id", func(c map[string]interface{}) { c["value"] = []interface{}{map[string]interface{}{"displayName": "g-1-2"}} })
+	gr("nextlink-number", func(c map[string]interface{}) { c["@odata.nextLink"] = 5 })
+	gr("nextlink-relative", func(c map[string]interface{}) { c["@odata.nextLink"] = "/v1.0/me/transitiveMemberOf?$skiptoken=1" })
+	gr("nextlink-elsewhere", func(c map[string]interface{}) { c["@odata.nextLink"] = "https://elsewhere.sim/v1.0/me/transitiveMemberOf?$skiptoken=1" })
+	gr("nextlink-garbage", func(c map[string]interface{}) { c["@odata.nextLink"] = "::not a url::" })
+	gr("empty-document", func(c map[string]interface{}) {
+		for k := range c {
+			delete(c, k)
+		}
+	})
+	gr("duplicate-ids", func(c map[string]interface{}) {
+		c["value"] = []interface{}{map[string]interface{}{"id": "g-0-1"}, map[string]interface{}{"id": "g-0-1"}, map[string]interface{}{"id": ""}}
+	})
 	for _, k := range vfTLSConnKinds {
 		ks = append(ks, vfC14Kind{Name: k, Reject: all, Conn: k, ConnAlways: k == "tls:no-handshake" || k == "tls:plain"})
 	}
@@ -228,7 +249,7 @@ func vfC14(w *vfWorld) {
 			tlsExtra = []string{"--ssl-insecure-skip-verify=true"}
 		}
 	}
-	flows := []string{"login", "login-profile", "bearer", "refresh", "plain-login", "plain-stale", "refresh-profile", "google-login", "backend-logout", "google-refresh", "azure-login", "logingov-login"}
+	flows := []string{"login", "login-profile", "bearer", "refresh", "plain-login", "plain-stale", "refresh-profile", "google-login", "backend-logout", "google-refresh", "azure-login", "logingov-login", "entra-login"}
 	flow := flows[t.Choice("c14.flow", len(flows))]
 	if strings.HasPrefix(flow, "plain") {
 		cfg.Provider = "plain"
@@ -259,6 +280,24 @@ func vfC14(w *vfWorld) {
 		cfg.Provider = "logingov"
 		cfg.Extra = []string{"--pass-access-token=true", "--set-xauthrequest=true", "--jwt-key=" + vfLoginGovClientKeyPEM()}
 	}
+	entra := flow == "entra-login"
+	entraGroup := ""
+	if entra {
+		// Microsoft Entra ID flavour: always over TLS (its issuer must be https://login.microsoftonline.com/<tenant>/v2.0); the ID token signals
+		// group overage (_claim_names.groups), the memberships come from two pages of Microsoft Graph (graph.microsoft.com, same simulated CA).
+		// Half of the worlds admit only members of a group that is listed on the second page
+		cfg.Provider = "entra-id"
+		cfg.IdpURL = "https://login.microsoftonline.com/tenant-a/v2.0"
+		tlsMode = "ca-file"
+		tlsExtra = []string{"--provider-ca-file=" + w.writeFile("sim-ca.pem", vfTLSMaterial().CAPEM)}
+		if t.Bool("c14.entra-allowed-group") {
+			entraGroup = "g-1-2"
+			cfg.Extra = append(cfg.Extra, "--allowed-group="+entraGroup)
+		}
+		if t.Bool("c14.entra-tenants") {
+			cfg.Extra = append(cfg.Extra, "--entra-id-allowed-tenant=tenant-a")
+		}
+	}
 	cfg.Extra = append(cfg.Extra, tlsExtra...)
 	// a fifth of the OIDC worlds run the Keycloak flavour of the provider: JWT access tokens carry the roles
 	kc := cfg.Provider == "oidc" && (flow == "login" || flow == "refresh" || flow == "bearer") && t.Prob("c14.keycloak", 200)
@@ -267,7 +306,7 @@ func vfC14(w *vfWorld) {
 	}
 	cfg.PKCE = vfPick(t, "c14.pkce", []string{"", "S256"})
 	audClaim := vfPick(t, "c14.audclaim", []string{"", "azp", "client_ids"})
-	if az || lgov {
+	if az || lgov || entra {
 		audClaim = ""
 	}
 	if audClaim != "" && cfg.Provider != "plain" {
@@ -275,6 +314,14 @@ func vfC14(w *vfWorld) {
 	}
 	w.idpURL = cfg.IdpURL
 	idp := w.StartIdP()
+	if entra {
+		w.net.ServeTLS(w, "graph.microsoft.com:443", idp, func(task string) string {
+			if idp.ConnPlan != nil {
+				return idp.ConnPlan(task)
+			}
+			return ""
+		})
+	}
 	idp.Rotate = t.Bool("c14.rotate")
 	idp.IDTokenTTL, idp.AccessTTL = 3*time.Hour, 3*time.Hour
 	idp.AddUser(&vfUser{Name: "dave", Sub: "sub-dave", Email: "dave@example.com", EmailVerified: true, PreferredUsername: "dave"})
@@ -326,6 +373,17 @@ func vfC14(w *vfWorld) {
 			c[audClaim] = vfClientID
 		}
 		return c
+	}
+	var curGR func(c map[string]interface{})
+	var curGRHit func(c *vfIdpCall) bool
+	var curGRFired func()
+	if entra {
+		idp.GraphPost = func(call *vfIdpCall, doc map[string]interface{}) {
+			if curGR != nil && curGRHit(call) {
+				curGR(doc)
+				curGRFired()
+			}
+		}
 	}
 	var curAZ func(c map[string]interface{})
 	var curAZHit func(c *vfIdpCall) bool
@@ -385,6 +443,11 @@ func vfC14(w *vfWorld) {
 				delete(m.Claims, c)
 			}
 		}
+		if entra && m.Claims != nil {
+			delete(m.Claims, "groups")
+			m.Claims["_claim_names"] = map[string]interface{}{"groups": "src1"}
+			m.Claims["_claim_sources"] = map[string]interface{}{"src1": map[string]interface{}{"endpoint": "https://graph.windows.net/tenant-a/users/x/getMemberObjects"}}
+		}
 		if curMint != nil {
 			curMint(m)
 		}
@@ -405,7 +468,7 @@ func vfC14(w *vfWorld) {
 			idp.RotateKey()
 		}
 		switch flow {
-		case "login", "login-profile", "plain-login", "google-login", "azure-login", "logingov-login":
+		case "login", "login-profile", "plain-login", "google-login", "azure-login", "logingov-login", "entra-login":
 			lg, _ := b.StartLogin(rep, pp+"/start?rd=%2Fapp", user)
 			pending = lg
 			return lg != nil
@@ -433,7 +496,7 @@ func vfC14(w *vfWorld) {
 	}
 	act := func(b *vfBrowser) *vfResp {
 		switch flow {
-		case "login", "login-profile", "plain-login", "google-login", "azure-login", "logingov-login":
+		case "login", "login-profile", "plain-login", "google-login", "azure-login", "logingov-login", "entra-login":
 			return b.GET(rep, pending.CallbackTarget(pp))
 		case "bearer":
 			return b.Do(rep, &vfReq{Method: "GET", Target: "/api/x", NoJar: true, Headers: [][2]string{{"Authorization", "Bearer " + bearer}}})
@@ -469,7 +532,7 @@ func vfC14(w *vfWorld) {
 	}
 	okFree := false
 	switch flow {
-	case "login", "login-profile", "plain-login", "google-login", "azure-login", "logingov-login":
+	case "login", "login-profile", "plain-login", "google-login", "azure-login", "logingov-login", "entra-login":
 		okFree = r0.Status == 302 && vfSessionCookieSet(r0, cfg.CookieName)
 	case "backend-logout":
 		okFree = r0.Status == 302 && r0.Location() == "/bye"
@@ -495,6 +558,8 @@ func vfC14(w *vfWorld) {
 			return "jwks"
 		case ep == "userinfo", ep == "plain:account":
 			return "userinfo"
+		case ep == "graph":
+			return "graph"
 		}
 		return ep
 	}
@@ -531,6 +596,9 @@ func vfC14(w *vfWorld) {
 					continue // role claims of the access token matter to the Keycloak flavour only
 				}
 				if kd.AZ != nil && !az {
+					continue
+				}
+				if kd.GR != nil && !entra {
 					continue
 				}
 				if kd.Conn != "" {
@@ -578,6 +646,7 @@ func vfC14(w *vfWorld) {
 				}
 				curAT, curATHit, curATFired = kd.AT, hit, func() { fired = true }
 				curAZ, curAZHit, curAZFired = kd.AZ, hit, func() { fired = true }
+				curGR, curGRHit, curGRFired = kd.GR, hit, func() { fired = true }
 				idp.JWKSOverride = func(c *vfIdpCall) []byte {
 					if hit(c) && kd.JWKS != nil {
 						fired = true
@@ -600,6 +669,7 @@ func vfC14(w *vfWorld) {
 				idp.Plan, curMint, idp.JWKSOverride, idp.Userinfo, idp.ConnPlan = nil, nil, nil, nil, nil
 				curAT, curATHit, curATFired = nil, nil, nil
 				curAZ, curAZHit, curAZFired = nil, nil, nil
+				curGR, curGRHit, curGRFired = nil, nil, nil
 				cs.Iterations++
 				if !fired {
 					w.probe("c14:fault-position-not-reached")
@@ -607,6 +677,30 @@ func vfC14(w *vfWorld) {
 				}
 				w.nontriv = true
 				mustReject := kd.Reject["*"] || kd.Reject[flow]
+				if kd.Conn != "" {
+					// connection-level trouble is placed by connection count; which call it struck is read off afterwards: the first call of
+					// the recorded sequence that did not arrive (a key-set fetch the recording made may be served from the cache now)
+					arrived := idp.since(base, "")
+					cls = ""
+					ai := 0
+					for _, rc := range calls {
+						if ai < len(arrived) && arrived[ai].Endpoint == rc.Endpoint {
+							ai++
+							continue
+						}
+						if rc.Endpoint == "jwks" {
+							continue
+						}
+						cls = endpointClass(rc.Endpoint)
+						break
+					}
+					if cls == "" {
+						mustReject = false // every call of the flow arrived: the trouble struck something the flow does not depend on
+					}
+					if (az || lgov) && cls == "userinfo" {
+						mustReject = false // (which of this flavour's repeated profile calls was struck is not tracked for connection trouble)
+					}
+				}
 				if kd.Need != "" && !lacks[kd.Need] {
 					mustReject = false
 				}
@@ -632,6 +726,11 @@ func vfC14(w *vfWorld) {
 						}
 					}
 					mustReject = mustReject && k == first && lacks["email"]
+				}
+				if cls == "graph" {
+					// the group listing is an enrichment: without it the user "will authenticate with 0 groups" (documented). Only a deployment that
+					// admits nobody but the members of a group the listing alone can supply must refuse the login when the listing cannot be had
+					mustReject = mustReject && entraGroup != "" && (kd.Fault.Kind != "" || kd.Conn != "")
 				}
 				if az && cls == "jwks" {
 					// ... and the access token's key may still be cached when the ID token's cannot be fetched
@@ -663,7 +762,7 @@ func vfC14(w *vfWorld) {
 				if mustReject {
 					cs.MustReject++
 					switch flow {
-					case "login", "login-profile", "plain-login", "google-login", "azure-login", "logingov-login":
+					case "login", "login-profile", "plain-login", "google-login", "azure-login", "logingov-login", "entra-login":
 						if vfSessionCookieSet(r, cfg.CookieName) || r.Status == 302 && r.Location() == "/app" {
 							w.violate("C14", "session-from-bad-response", flow+"/"+kd.Name, "%s: the callback established a session (status %d) from a failed / malformed provider response", label, r.Status)
 						}
@@ -747,7 +846,7 @@ func vfC14(w *vfWorld) {
 	flowSaved := flow
 	if prep(bh) {
 		switch flowSaved {
-		case "login", "login-profile", "plain-login", "google-login", "azure-login", "logingov-login":
+		case "login", "login-profile", "plain-login", "google-login", "azure-login", "logingov-login", "entra-login":
 			r := act(bh)
 			if !(r.Status == 302 && vfSessionCookieSet(r, cfg.CookieName)) {
 				w.violate("C14", "not-recovered", flow, "after the fault sweep an honest login fails: status %d", r.Status)
